@@ -652,6 +652,9 @@ func (p *Pager) RunRollbackTx(prev *Image, tx Tx, jm JournalMode, outcome Rollba
 	if sectorSize == 0 {
 		sectorSize = 512
 	}
+	// SQLite draws a fresh checksum nonce for every journal (writeJournalHdr: sqlite3_randomness): the records an earlier,
+	// longer journal left behind in a persistent journal file do not verify under it
+	p.Nonce = p.Nonce*1103515245 + 12345
 	pgnos := sortedPgnos(tx.Writes)
 	if _, ok := tx.Writes[1]; !ok && (tx.NewSize != uint32(len(prev.Pages)) || len(prev.Pages) == 0) {
 		pgnos = append([]uint32{1}, pgnos...)
